@@ -16,10 +16,18 @@ import (
 	"sort"
 	"strings"
 	"sync"
+	"sync/atomic"
+	"time"
 
 	"github.com/alicebob/miniredis/v2"
 	"github.com/zeromicro/go-zero/core/logx"
 	"github.com/zeromicro/go-zero/verifshim/vlib"
+)
+
+var (
+	timing = os.Getenv("C14_TIMING") != "" // development aid: busy time per entry point on stderr
+	timeMu sync.Mutex
+	timeBy = map[string]time.Duration{}
 )
 
 var stmtKinds = []string{"exec", "query", "prepexec", "prepquery", "nested"}
@@ -53,6 +61,7 @@ type unit struct {
 	idx   int
 	api   apiSpec
 	kinds []string
+	fam   string // "" base family | ctx (ctxfam.go)
 }
 
 func buildUnits(maxN int) []unit {
@@ -170,6 +179,9 @@ func armed(c Case, o *Obs) (n int, allReached bool) {
 	if c.FailAt > 0 {
 		add(o.HitStmt)
 	}
+	if c.CtxAt != "" {
+		add(o.HitCtx)
+	}
 	if c.Term != "nil" {
 		add(o.TermReached)
 	}
@@ -210,6 +222,8 @@ type unitRes struct {
 	counters map[string]int
 	viol     map[string]cand
 	samples  map[string]sample
+	deferred []Case   // ctx family, parallel pass: to be run again in the sequential pass
+	inconcl  []string // sequential pass: cases that could not be waited out
 }
 
 func errString(err error) string {
@@ -231,46 +245,123 @@ func protocolLog(log []string) []string {
 	return out
 }
 
-func runUnit(u unit, r *vlib.Report, w *worker) *unitRes {
-	res := &unitRes{counters: map[string]int{}, viol: map[string]cand{}, samples: map[string]sample{}}
-	enumerateUnit(u, func(c Case) {
-		o := runCase(c, w)
-		ord := res.evals
-		res.evals++
-		n, all := armed(c, o)
-		cat := outcomeCategory(c, o)
-		res.counters["outcome:"+cat]++
-		switch {
-		case n == 0:
-			res.counters["fault_free_cases"]++
-		case all:
-			res.counters["all_faults_reached"]++
-			r.Nontrivial(c.key())
-			if _, ok := res.samples[cat]; !ok {
-				res.samples[cat] = sample{Case: c.String(), Driver: strings.Join(protocolLog(o.Log), " "), Returned: errString(o.Err), Outcome: cat}
+const maxDeferredPerPlacement = 150
+
+var deferredCount sync.Map // CtxAt -> *atomic.Int64
+
+func deferredAt(at string) *atomic.Int64 {
+	if v, ok := deferredCount.Load(at); ok {
+		return v.(*atomic.Int64)
+	}
+	v, _ := deferredCount.LoadOrStore(at, new(atomic.Int64))
+	return v.(*atomic.Int64)
+}
+
+func newUnitRes() *unitRes {
+	return &unitRes{counters: map[string]int{}, viol: map[string]cand{}, samples: map[string]sample{}}
+}
+
+func runUnit(u unit, r *vlib.Report, w *worker, thorough bool) *unitRes {
+	res := newUnitRes()
+	if u.fam == "ctx" {
+		enumerateCtxUnit(u, thorough, func(c Case) {
+			// Never on a conforming tree (nothing is deferred there). Where an implementation leaves
+			// work behind at some placement, each such case leaks goroutines and connections, and a
+			// bounded number of them is all the sequential pass needs.
+			if deferredAt(c.CtxAt).Load() >= maxDeferredPerPlacement {
+				res.counters["ctx:not_run_placement_already_deferred_often"]++
+				return
 			}
-		default:
-			res.counters["some_fault_not_reached"]++
-		}
-		if o.NestedRan > 0 {
-			res.counters["nested_transact_ran_its_body"]++
-		}
-		for _, v := range check(c, o) {
-			cd := cand{score: len(c.Kinds)*10 + n, unit: u.idx, ord: ord, class: v.class, desc: v.desc + " — " + c.String() +
-				" | driver log: " + strings.Join(o.Log, " ") + " | returned: " + errString(o.Err), c: c}
-			if old, ok := res.viol[v.class]; !ok || cd.less(old) {
-				res.viol[v.class] = cd
+			o := runCase(c, w)
+			if o.Deferred {
+				deferredAt(c.CtxAt).Add(1)
 			}
-		}
-	})
+			res.judge(u.idx, c, o, r.Nontrivial)
+		})
+	} else {
+		enumerateUnit(u, func(c Case) {
+			o := runCase(c, w)
+			if o.Deferred {
+				// base family: a bounded number of such cases is judged after waiting in the sequential
+				// pass; beyond it they are judged on what was seen when the call returned
+				if deferredAt("base").Add(1) > maxDeferredPerPlacement {
+					o.Deferred = false
+				}
+			}
+			res.judge(u.idx, c, o, r.Nontrivial)
+		})
+	}
 	return res
 }
 
+// judge counts one executed case and keeps its violations.
+func (res *unitRes) judge(uidx int, c Case, o *Obs, nontrivial func(string)) {
+	pfx := ""
+	if c.ctxFam() {
+		pfx = "ctx:"
+	}
+	if o.Deferred {
+		res.counters[pfx+"deferred_to_sequential_pass"]++
+		res.deferred = append(res.deferred, c)
+		return
+	}
+	if o.Inconclusive != "" {
+		res.counters[pfx+"inconclusive"]++
+		res.inconcl = append(res.inconcl, c.String()+": "+o.Inconclusive)
+		return
+	}
+	ord := res.evals
+	res.evals++
+	n, all := armed(c, o)
+	cat := outcomeCategory(c, o)
+	res.counters[pfx+"outcome:"+cat]++
+	if c.ctxFam() {
+		at := c.CtxAt
+		if at == "" {
+			at = "never"
+		}
+		res.counters["ctx:cases_ctx_ends:"+at]++
+		if o.HitCtx {
+			res.counters["ctx:reached_ctx_ends:"+at]++
+		}
+		if o.Async {
+			res.counters["ctx:driver_call_off_the_callers_goroutine:gate_"+o.Gate]++
+		}
+	}
+	switch {
+	case n == 0:
+		res.counters[pfx+"fault_free_cases"]++
+	case all:
+		res.counters[pfx+"all_faults_reached"]++
+		nontrivial(c.key())
+		if _, ok := res.samples[pfx+cat]; !ok {
+			res.samples[pfx+cat] = sample{Case: c.String(), Driver: strings.Join(protocolLog(o.Log), " "), Returned: errString(o.Err), Outcome: cat}
+		}
+	default:
+		res.counters[pfx+"some_fault_not_reached"]++
+	}
+	if o.NestedRan > 0 {
+		res.counters[pfx+"nested_transact_ran_its_body"]++
+	}
+	for _, v := range check(c, o) {
+		cd := cand{score: len(c.Kinds)*10 + n, unit: uidx, ord: ord, class: v.class, desc: v.desc + " — " + c.String() +
+			" | driver log: " + strings.Join(o.Log, " ") + " | returned: " + errString(o.Err), c: c}
+		if old, ok := res.viol[v.class]; !ok || cd.less(old) {
+			res.viol[v.class] = cd
+		}
+	}
+}
+
 func main() {
+	if os.Getenv(seqEnvIn) != "" {
+		runSeqChild()
+		return
+	}
 	cfg := vlib.ParseFlags("C14", "fault_enumeration")
 	r := vlib.NewReport(cfg)
 	logx.Disable()
 	debug.SetGCPercent(400) // cases are short-lived garbage; the live heap is tiny
+	debug.SetMemoryLimit(4 << 30) // ... but the machine is shared: collect harder beyond 4 GB
 
 	mr, err := miniredis.Run()
 	if err != nil {
@@ -278,6 +369,7 @@ func main() {
 	}
 	defer mr.Close()
 	redisAddr = mr.Addr()
+	flushCache = mr.FlushAll
 
 	if cfg.Replay != "" {
 		var c Case
@@ -285,8 +377,14 @@ func main() {
 		if err != nil {
 			vlib.Fatal("cannot load replay: %v", err)
 		}
-		o := runCase(c, newWorker())
+		wk := newWorker()
+		wk.seq = true // alone in the process: wait until nothing can act on the transaction any more
+		o := runCase(c, wk)
 		fmt.Printf("replay class=%s\ncase: %s\n", class, c.String())
+		if o.Inconclusive != "" {
+			fmt.Printf("inconclusive (no verdict): %s\n", o.Inconclusive)
+			os.Exit(2)
+		}
 		fmt.Printf("driver log: %s\nbody: runs=%d outcome=%q nested-ran=%d nested-results=%v\nreturned: %s\nescaped panic: %v %v\nconnections in use afterwards: %d\n",
 			strings.Join(o.Log, " "), o.BodyRuns, o.BodyOutcome, o.NestedRan, o.NestedErrs, errString(o.Err), o.DidEscape, o.Escaped, o.InUse)
 		fmt.Printf("expected: %s\n", expectation(c, o))
@@ -312,6 +410,12 @@ func main() {
 		maxN = 4
 	}
 	units := buildUnits(maxN)
+	nBase := len(units)
+	maxCtxN := 2
+	if cfg.Thorough() {
+		maxCtxN = 3
+	}
+	units = append(units, buildCtxUnits(maxCtxN, nBase)...)
 	results := make([]*unitRes, len(units))
 	skipped := make([]bool, len(units))
 	workers := runtime.NumCPU()
@@ -330,7 +434,13 @@ func main() {
 					skipped[i] = true
 					continue
 				}
-				results[i] = runUnit(units[i], r, wk)
+				t0 := time.Now()
+				results[i] = runUnit(units[i], r, wk, cfg.Thorough())
+				if timing {
+					timeMu.Lock()
+					timeBy[units[i].fam+" "+units[i].api.name] += time.Since(t0)
+					timeMu.Unlock()
+				}
 			}
 		}()
 	}
@@ -340,17 +450,89 @@ func main() {
 	close(next)
 	wg.Wait()
 
+	if timing {
+		for k, v := range timeBy {
+			fmt.Fprintf(os.Stderr, "timing: %-70s %v\n", k, v)
+		}
+		fmt.Fprintf(os.Stderr, "timing: parallel passes done at %v\n", time.Since(cfg.Start))
+		var ms runtime.MemStats
+		runtime.ReadMemStats(&ms)
+		fmt.Fprintf(os.Stderr, "timing: heap in use %d MB, heap sys %d MB, stacks %d MB, total sys %d MB, live after last GC ~%d MB\n", ms.HeapInuse>>20, ms.HeapSys>>20, ms.StackSys>>20, ms.Sys>>20, ms.HeapAlloc>>20)
+		if f := os.Getenv("C14_HEAPPROFILE"); f != "" {
+			runtime.GC()
+			if fh, err := os.Create(f); err == nil {
+				pprof.WriteHeapProfile(fh)
+				fh.Close()
+			}
+		}
+		t0 := time.Now()
+		act := activeGoroutines()
+		if os.Getenv("C14_TIMING") == "dump" {
+			pprof.Lookup("goroutine").WriteTo(os.Stderr, 1)
+		}
+		fmt.Fprintf(os.Stderr, "timing: %d goroutines, census takes %v, active now: %v\n", runtime.NumGoroutine(), time.Since(t0), act)
+	}
+	// sequential pass of the context-fault family (ctxfam.go): the pool cases, and every case of
+	// the parallel pass in which something was still going on when the call returned
+	{
+		var todo []Case
+		todo = append(todo, poolCases()...)
+		for i, res := range results {
+			if !skipped[i] && res != nil {
+				todo = append(todo, res.deferred...)
+			}
+		}
+		budget := time.Until(cfg.Deadline())
+		if budget < 0 {
+			budget = 0
+		}
+		seq, left, err := runSeqPass(todo, len(units), budget, r.Nontrivial)
+		if err != nil {
+			vlib.Fatal("sequential pass: %v", err)
+		}
+		notRun := 0
+		for i, res := range results {
+			if !skipped[i] && res != nil {
+				notRun += res.counters["ctx:not_run_placement_already_deferred_often"]
+			}
+		}
+		if notRun > 0 {
+			r.NotExhaustive(fmt.Sprintf("context-fault family: %d cases not run because cases of the same placement had already left work behind %d times (those are judged in the sequential pass)", notRun, maxDeferredPerPlacement))
+		}
+		if left > 0 {
+			r.NotExhaustive(fmt.Sprintf("sequential pass of the context-fault family: %d of %d cases not run (time box, or violations already on record)", left, len(todo)))
+		}
+		for i, s := range seq.inconcl {
+			if i < 5 {
+				r.NotExhaustive("no verdict (activity did not end): " + s)
+			}
+		}
+		seq.counters["ctx:sequential_pass_cases"] = seq.evals
+		if timing {
+			fmt.Fprintf(os.Stderr, "timing: sequential pass done at %v\n", time.Since(cfg.Start))
+		}
+		units = append(units, unit{idx: len(units), fam: "ctx"})
+		results = append(results, seq)
+		skipped = append(skipped, false)
+	}
+
 	// merge in unit order: deterministic whatever the goroutine schedule was
 	nskipped := 0
 	best := map[string]cand{}
 	samples := map[string]sample{}
 	perN := map[int]int{}
+	perFam := map[string]int{}
 	for i, res := range results {
 		if skipped[i] || res == nil {
 			nskipped++
 			continue
 		}
 		r.Eval(res.evals)
+		if units[i].fam == "ctx" {
+			perFam["context_fault_family"] += res.evals
+		} else {
+			perFam["base_family"] += res.evals
+		}
 		perN[len(units[i].kinds)] += res.evals
 		for k, v := range res.counters {
 			r.Count(k, v)
@@ -390,12 +572,18 @@ func main() {
 		sizes[fmt.Sprintf("%d_statements", n)] = e
 	}
 	r.SetExtra("cases_by_body_length", sizes)
+	r.SetExtra("cases_by_family", perFam)
 	r.SetExtra("units", len(units))
 	var apiNames []string
 	for _, a := range apis {
 		apiNames = append(apiNames, a.name+" (body uses session "+a.via+")")
 	}
+	for _, a := range ctxAPIs {
+		apiNames = append(apiNames, "context-fault family: "+a.name+" (body uses session "+a.via+")")
+	}
 	r.SetExtra("entry_points", apiNames)
+	r.SetExtra("context_fault_family", map[string]any{"max_statements": maxCtxN, "extra_statement_kinds": append(append([]string(nil), ctxNewKinds...), ctxCachedKinds...),
+		"ctx_kinds": []string{"cancel", "deadline"}, "placements": []string{"open", "begin", "pre k", "stmt k call j", "end", "pool"}, "terminals": ctxTerminals(cfg.Thorough(), 0), "terminals_longest_bodies": ctxTerminals(cfg.Thorough(), maxCtxN)})
 	r.SetExtra("dimensions", map[string]any{
 		"statement_kinds": stmtKinds, "max_statements": maxN, "driver_flavours": []string{"direct", "skip"},
 		"begin": []string{"ok", "fail", "openfail (sqlx.NewSqlConn only)"}, "ctx": []string{"live", "pre", "inbody (TransactCtx only)"},
@@ -403,6 +591,7 @@ func main() {
 		"terminals": terminals(), "end_faults": []string{"none", "commit", "rollback"}})
 	r.Assume("the transaction body finishes by returning or panicking (runtime.Goexit inside the body is outside the quantifier)")
 	r.Assume("driver errors are ordinary errors (driver.ErrBadConn, on which database/sql itself retries Begin, is not injected)")
+	r.Assume("context-fault family: a query call never returns rows together with an ended context (database/sql closes such rows from its own goroutine: a race inside database/sql); the recording driver refuses calls that carry an ended context, as real drivers do")
 	r.Assume("go.mod says go >= 1.21, so panic(nil) reaches recover as *runtime.PanicNilError (GODEBUG=panicnil=1 not considered)")
 	r.SetRule("cross product: 8 entry points (sqlx.NewSqlConnFromDB / sqlx.NewSqlConn / sqlc.NewConnWithCache / sqlc.NewNodeConn / sqlc.NewConn, Transact and TransactCtx) " +
 		"x every body of 0..N statements over {exec, query, prepared exec, prepared query, nested Transact attempt} x driver flavour {direct, prepare-fallback} " +
